@@ -6,9 +6,13 @@ rows = []
 for pid in sorted(claims):
     if not claims[pid].get('claimed'):
         continue
-    out = tempfile.mktemp(suffix='.json', dir='/dev/shm')
-    subprocess.run(['/verif/selftest.sh', pid, out], stderr=subprocess.DEVNULL)
-    d = json.load(open(out)); os.remove(out)
+    pre = os.path.join(os.environ.get('ST_DIR', '/nonexistent'), pid + '.json')
+    if os.path.exists(pre):  # selftests already run (in parallel) with the same binary
+        d = json.load(open(pre))
+    else:
+        out = tempfile.mktemp(suffix='.json', dir='/dev/shm')
+        subprocess.run(['/verif/selftest.sh', pid, out], stderr=subprocess.DEVNULL)
+        d = json.load(open(out)); os.remove(out)
     for x in d['details']:
         if x['id'] == 'control':
             rows.append((pid, 'control (unchanged copy)', 'clean' if x['exit'] == 0 else 'NOT CLEAN', ''))
